@@ -805,6 +805,11 @@ func (cs *ContractSet) loadContractFile(path string, pkgPath string, trusted boo
 			if cur != nil {
 				cur.Trusted = true
 			}
+		case "verified":
+			// a contract kept outside the repository whose function body is nevertheless verified
+			if cur != nil {
+				cur.Trusted = false
+			}
 		case "safety":
 			if cur != nil {
 				cur.Safety = append(cur.Safety, strings.Fields(strings.ReplaceAll(rest, ",", " "))...)
